@@ -6,7 +6,8 @@ GENERATORS = ['gen_codepage', 'gen_textfmt']
 COQ_TARGETS = ['Props/C15.vo', 'Run/RunC15.vo']
 PROPS_MODULE = 'Props.C15'
 THEOREMS = ['text_roundtrip', 'pcb_roundtrip', 'avt_roundtrip', 'ctrla_roundtrip', 'ren_roundtrip', 'asc_roundtrip',
-            'ata_roundtrip', 'line_length_meaning', 'ctrla_sync_all_pairs', 'layout', 'avatar_row_sync', 'avatar_scan_fuel_suffices']
+            'ata_roundtrip', 'line_length_meaning', 'ctrla_sync_all_pairs', 'layout', 'avatar_row_sync', 'avatar_scan_fuel_suffices',
+            'avatar_caret_column', 'avatar_home_goto']
 SWEEP_LEMMAS = ['TextFormats.ctrla_sweep (Ctrl-A: all 16x8x16x8 (attribute in force, next attribute) pairs: the parser run over the emitted '
                 'N/H/E/I/colour letters ends in the next attribute with matching bold/high state)',
                 'TextFormats.pcb_code_sweep (PCBoard: 16x8 colours: HEX_TABLE digits -> conv_ch -> from_u8 gives the colours back)',
@@ -15,7 +16,8 @@ TRUSTED = ['Coq 8.16.1 kernel + vm_compute (the three finite sweeps, the example
            'translator/gen_textfmt.py + gen_codepage.py + vlib/rustsrc.py: constants/tables (HEX_TABLE, Ctrl-A FG/BG, Avatar and control '
            'characters, loader sizes, attribute flag bits and defaults) and the token-level pins of the shared line-break rule, the '
            'screen-preparation arms, the Avatar scanner bound / short-run limit / quoted set and the ATASCII escape set',
-           'hand-written models of the six writers, six parsers, Buffer::print_char / Caret::lf,cr,ff,bs,del / Layer::set_char / '
+           'hand-written models of the six writers, six parsers, Buffer::print_char / Caret::lf,cr,ff,bs,del,home / '
+           'TerminalState::limit_caret_pos (non-terminal buffer) / Layer::set_char / '
            'get_line_length / crop_loaded_file / the bold-folding epilogue (Model/TextBuf.v, TextWriters.v, TextParsers.v), tied to the '
            'code by stage C on every run: bytes of Buffer::to_bytes and the raw layer (every line, every cell incl. invisible '
            'padding, layer and buffer height) after Buffer::from_bytes must be equal',
@@ -38,7 +40,8 @@ RULE = ('seeded random pictures per format: height 1..40 (biased to 1..5, every 
         'row length 0 / full width / width-1..4 / 1..3 / uniform, attribute runs over 16 fg x 8 bg with three change rates, character runs '
         '(for the Avatar RLE) with three change rates, optional insignificant tail of blank-on-black cells with random foreground; stage C '
         'adds "wild" pictures (NUL, 255, lead-in and control characters, bold/blink flags, bg up to 15) and loader inputs mutated with '
-        'the format\'s own alphabet; directed cases: the three known/fixed findings, full-width rows in every position, Avatar scanner '
+        'the format\'s own alphabet (Avatar: plus goto / up / down / right sequences on and beyond the right edge) and directed loader '
+        'streams for the shared cursor code (goto clamp, Ctrl-A home, form feed after the buffer has grown); directed cases: the three known/fixed findings, full-width rows in every position, Avatar scanner '
         'boundaries at width-4..width. A case is non-trivial when the picture has a non-blank cell (all are); distinct = distinct case strings')
 LEVEL_TEXT = ('Machine-checked proof (Coq, closed under the global context) of the round trip for ALL SIX formats - PCBoard, Renegade, Ctrl-A, '
               'ASCII, Avatar, ATASCII - over every picture of the stated width, every height >= 1, every row length 0..width (full-width '
@@ -46,8 +49,10 @@ LEVEL_TEXT = ('Machine-checked proof (Coq, closed under the global context) of t
               'buffer has the saved height and every cell up to the end of its row has the saved character and colours (ASCII: character; '
               'ATASCII: character and inverse-video bit), cells after the end of a row are blank. One generic development (sync law per '
               'row => layout => crop/bold-folding epilogue) with six instances; the Ctrl-A law is a complete 16x8x16x8 sweep, the Avatar law '
-              'covers the run scanner and ^Y repeats for every width <= 255. Proved for the code after the fix commit for the Avatar goto '
-              '(C15-avt-home-offset, fixed). Excluded by named predicates and reported as known findings: files that start with a UTF-8 BOM '
+              'covers the run scanner and ^Y repeats for every width <= 255. Proved for the merged tree: the Avatar goto takes 1-based bytes '
+              '(C15-avt-home-offset, fixed) and, like cursor up/down/right, ends with TerminalState::limit_caret_pos (on the loaders\' '
+              'non-terminal buffer: column clamped to the screen, row untouched; the caret column provably never leaves the screen on any '
+              'byte stream and the Home sequence is unaffected). Excluded by named predicates and reported as known findings: files that start with a UTF-8 BOM '
               '(ASCII/Renegade/Ctrl-A only; proved impossible for PCBoard and Avatar) and files whose last 128 bytes start with "SAUCE". '
               'The theorem is about lossles_output = true; the colour-optimizer path is covered by the search stage only.')
 LEVEL_NOTE = ('Writers, parsers and buffer primitives are hand-modelled (control flow) over generated constants and tied by differential '
@@ -153,7 +158,36 @@ def mutate_stream(rng, fmt, bs):
             bs[rng.randrange(len(bs))] = rng.choice(alpha)
         else:
             bs.insert(rng.randint(0, len(bs)), rng.choice(alpha))
+    if fmt == 'avt' and rng.random() < 0.4:
+        # cursor commands that end with TerminalState::limit_caret_pos in the merged tree: a goto whose column byte
+        # lies on / next to / beyond the right edge (clamped to 79), up / down / right next to it
+        at = rng.randint(0, len(bs))
+        seq = [22, 8, rng.choice([1, 79, 80, 81, 82, 200, 255, rng.randint(0, 255)]), rng.choice([0, 1, 2, 3, 26, 40, 255, rng.randint(0, 60)])]
+        for _ in range(rng.randint(0, 3)):
+            seq += [22, rng.choice([3, 4, 5, 6])]
+        bs[at:at] = seq
     return bs
+
+def directed_streams():
+    """loader inputs for the shared cursor code that other properties' fix commits changed (limit_caret_pos after the Avatar
+    goto / up / down / right, Caret::home for Ctrl-A ^A', Caret::ff after the buffer has grown): on the NON-terminal buffer of
+    the loaders the column is clamped to 0..79, the row is left alone, home is (0,0) and ff keeps the buffer height"""
+    A, B = 65, 66
+    d = []
+    for x, y in [(0xF0, 0xF0), (0x51, 1), (0x50, 1), (0x52, 3), (0xFF, 2), (1, 1), (0, 0), (0x4F, 30), (200, 26)]:
+        d.append(('avt', [22, 8, x, y, A, B]))
+        d.append(('avt', [A, 13, 10, 22, 8, x, y, 22, 4, A, 22, 3, B, 22, 6, A, 22, 5, B]))
+        d.append(('avt', [22, 8, x, y, 22, 6, A, B, 22, 3, 22, 3, A]))
+    d.append(('avt', [A] + [22, 6] * 85 + [B, A]))
+    d.append(('avt', [22, 4] * 30 + [A, 12, B]))
+    d.append(('avt', [22, 3, 22, 5, A, 22, 4, 22, 4, 22, 3, B]))
+    d.append(('avt', [22, 8, 0x50, 1, 25, A, 3, 22, 8, 0xFF, 0xFF, 25, B, 2]))
+    d.append(('msg', [A, 13, 10] * 30 + [1, 39, B]))
+    d.append(('msg', [A] * 79 + [1, 39, B, 1, 76, A]))
+    for f in ('pcb', 'an1', 'asc', 'msg', 'avt'):
+        d.append((f, [10] * 30 + [A, 12, B]))
+        d.append((f, [A] * 200 + [12] + [B] * 3))
+    return d
 
 def hash_list(l):
     h = 7
@@ -185,6 +219,7 @@ def correspondence(ctx):
                 ld_inputs.append((f, mutate_stream(rng, f, r[1])))
     for f in FMTS:
         ld_inputs.append((f, []))
+    ld_inputs += directed_streams()
     ld_cases = ['ld %s %s' % (f, hexs(bs)) for f, bs in ld_inputs]
     ld_impl = ctx.impl(ld_cases, per_case_timeout=20)
     ld_exprs = ['run_ld_h %d [%s]' % (FIDX[f], '; '.join(map(str, bs))) for f, bs in ld_inputs]
